@@ -7,6 +7,7 @@ From Coq Require Import List NArith ZArith Bool Lia Arith.
 From GmsmVerif Require Import Lib.Outcome EC.ECAffine EC.SM2Curve SM3.SM3Spec
      SM2.SM2Bytes SM2.SM2BytesProofs SM2.SM2Spec SM2.DER SM2.SM2Model SM2.SM2SignProofs SM2.SM2Group
      SM2.SM2EncProofs SM2.SM2KxProofs.
+From GmsmVerif Require Import SM2.SM2ParamsTie Gen.SM2Params Gen.SM2SigParams.
 Import ListNotations.
 Open Scope Z_scope.
 
@@ -69,6 +70,15 @@ Theorem C13_kx_rejects_infinite_V :
     exists e, keyExchange klen ida idb pri pub rpri rpub thisISA = Err e.
 Proof. exact keyExchange_rejects_infinite_V. Qed.
 Print Assumptions C13_kx_rejects_infinite_V.
+
+(* ---- tie to the source: curve constants and the ID length limit of ZA ---------------------------------------- *)
+Theorem C13_source_constants_tied :
+  (gen_P = sm2_p /\ gen_N = sm2_n /\ gen_A = sm2_a /\ gen_B = sm2_b /\ gen_Gx = sm2_Gx /\ gen_Gy = sm2_Gy /\
+   gen_BitSize / gen_rand_div + gen_rand_extra = 40) /\
+  (gen_default_uid = default_uid /\ gen_uid_limit = 8192 /\ gen_C1C3C2 = 0 /\ gen_C1C2C3 = 1 /\
+   gen_decrypt_min = Z.of_nat (1 + 64 + 32 + 1)).
+Proof. exact (conj curve_params_tied sig_params_tied). Qed.
+Print Assumptions C13_source_constants_tied.
 
 (* ---- non-vacuity: concrete instances, evaluated.  A complete exchange needs 128- and 256-bit scalar
    multiplications (minutes under vm_compute); complete exchanges, incl. the GM/T 0003.5 Annex example,
